@@ -291,6 +291,18 @@ theorem unquote_fffd_count (body : Bytes) (hb : RawBody body) :
 example : RawBody [0x61, 0xff, 0xE2, 0x80] := by
   intro b hb; simp at hb; rcases hb with rfl | rfl | rfl | rfl <;> decide
 
+/-- The same for literals that MIX escape sequences, well-formed text and raw ill-formed bytes (`UnescapesLossy body m k`:
+`m` has exactly one U+FFFD for each of the `k` ill-formed bytes): AppendUnquote returns `m`, with ErrInvalidUTF8 iff
+`k > 0`. -/
+theorem unquote_fffd_count_mixed (body m : Bytes) (k : Nat) (h : UnescapesLossy body m k) :
+    appendUnquote (0x22 :: (body ++ [0x22])) = (m, if 0 < k then Err.invalidUTF8 else Err.ok) := by
+  simp only [appendUnquote, ↓reduceIte]
+  exact unqLoop_lossy h Err.ok
+
+-- `"\n` FF `\u0041"` : meaning LF U+FFFD 'A', one ill-formed byte
+example : UnescapesLossy [0x5c, 0x6e, 0xff, 0x5c, 0x75, 0x30, 0x30, 0x34, 0x31] ([0x0a] ++ (replacement ++ (encodeRune 0x41 ++ []))) 1 :=
+  .simple (by decide) (.bad (by decide) (by decide +kernel) (.unicode (v := 0x41) (by decide) (by decide) .nil))
+
 /-! ### Glue with slice C01 (Model/WireDecode.lean): one model of strings -/
 
 open JsonV.Lemmas.GlueQuote in
